@@ -10,6 +10,7 @@ import re
 from ..astutil import call_attr, calls_in, guard_facts, unparse, walk_local
 from ..cfg import CFG
 from ..report import Finding, Report
+from ..setbuild import describe as describe_set
 from ..srcindex import AnalysisError, ClassInfo, Index, raw_funcs
 from .c10 import check_var_binding
 
@@ -162,11 +163,44 @@ def check_get_bases(idx: Index, rep: Report) -> None:
     else:
         r.ok(f.fq, f"{f.loc} alternatives are checked to be pairwise disjoint (exact bases, one abstract BaseAttr, no subclass overlap)")
     g = idx.func(CONS, "AnyOf.verify")
-    tg = [unparse(s) for s in g.node.body]
-    if tg[:1] == ["constr = self._based_constrs.get(attr.__class__)"] and any("self._abstr_constr.verify(attr, constraint_context)" in x for x in tg) and tg[-1].startswith("raise VerifyException"):
+    from ..paths import enum_paths
+
+    G, A = "self._based_constrs.get(attr.__class__) is None", "self._abstr_constr is None"
+    outcomes = set()
+    bad = []
+    for p in enum_paths(g.node):
+        if not p.feasible():
+            continue
+        nf = p.nfacts()
+        ver = [(k, e) for k, e in enumerate(p.effects) if isinstance(e, ast.Expr) and isinstance(e.value, ast.Call) and call_attr(e.value) == "verify"]
+        if p.end == "raise":
+            out = "raise"
+            need = {(G, True), (A, True)}
+        elif len(ver) == 1:
+            k, e = ver[0]
+            recv = p.res(e.value.func.value, k)  # type: ignore[attr-defined]
+            if recv == "self._based_constrs.get(attr.__class__)":
+                out, need = "exact", {(G, False)}
+            elif recv == "self._abstr_constr":
+                out, need = "abstract", {(G, True), (A, False)}
+            else:
+                bad.append(f"a path verifies with `{recv}`")
+                continue
+        else:
+            bad.append(f"a path under {sorted(nf)} neither verifies the attribute with one alternative nor rejects it")
+            continue
+        outcomes.add(out)
+        # truthiness tests on the looked-up constraint are equivalent to the None tests (constraints are objects)
+        nf2 = nf | {(t[: -len(" is None")] + " is None", not pol) for t, pol in nf if False}
+        nf2 |= {(x + " is None", not pol) for x, pol in nf if x in ("self._based_constrs.get(attr.__class__)", "self._abstr_constr")}
+        if not need <= nf2:
+            bad.append(f"the outcome `{out}` is reached under {sorted(nf)}; it requires {sorted(need)}")
+    if outcomes != {"raise", "exact", "abstract"}:
+        bad.append(f"outcomes found: {sorted(outcomes)}; expected exact-class dispatch, abstract fallback and rejection")
+    if not bad:
         r.ok(g.fq, f"{g.loc} dispatch on attr.__class__, then the abstract alternative, else reject")
     else:
-        r.fail(g.fq, Finding("C09.R1", g.fq, "anyof-dispatch", "AnyOf.verify must dispatch on the exact class, fall back to the abstract alternative and reject otherwise", g.loc))
+        r.fail(g.fq, Finding("C09.R1", g.fq, "anyof-dispatch", "AnyOf.verify must dispatch on the exact class, fall back to the abstract alternative and reject otherwise: " + "; ".join(bad), g.loc))
 
 
 ABSORB_OK = [
@@ -292,6 +326,20 @@ def check_forwarding(idx: Index, rep: Report) -> None:
                 else:
                     r.ok(inst, None)
             if ci is not None and inf is not None:
+                # infer(context) binds no variable: whatever a sub-constraint may rely on must already be known to
+                # the caller, so nested can_infer calls get the received set (or a smaller one), never a grown one
+                prm = [a.arg for a in ci.node.args.args[1:2]]
+                if prm:
+                    ccfg = CFG(ci.node)
+                    for k in calls_in(ci.node):
+                        if call_attr(k) == "can_infer" and k.args:
+                            dsc = describe_set(ci.node, ccfg, k.args[0], ccfg.node_of(k))
+                            inst2 = f"{ci.fq}:{unparse(k)[:50]}"
+                            grown = (dsc.bases - {prm[0]}) or dsc.adds or dsc.unknown
+                            if grown:
+                                r.fail(inst2, Finding("C09.R3", ci.fq, "can-infer-grows-known-set", f"`{unparse(k)[:80]}` asks a sub-constraint whether it can infer with more variables than the caller knows ({sorted(dsc.bases - {prm[0]}) + [a_.elem for a_ in dsc.adds] + dsc.unknown}), but {c.name}.infer resolves every sub-constraint in the same context without binding anything: can_infer answers True where infer raises", f"{ci.module.relpath}:{k.lineno}"))
+                            else:
+                                r.ok(inst2, None)
                 for d in (ci, inf):
                     t = unparse(d.node)
                     if any(f"self.{fl}" in t for fl in flds) or "return True" in t or "return False" in t:
